@@ -358,6 +358,7 @@ macro_rules! dispatch {
             "C18" => $f::<props::c18::C18>($($arg),*),
             "C13" => $f::<props::c13::C13>($($arg),*),
             "C14" => $f::<props::c14::C14>($($arg),*),
+            "C15" => $f::<props::c15::C15>($($arg),*),
             other => {
                 eprintln!("unknown property {}", other);
                 2
